@@ -1,1 +1,194 @@
-/* placeholder */
+/*
+ * C01 rung 1, digit arrays: bn_digits_* of include/math/big_num.h.
+ * Included from contracts/bn.h.
+ *
+ * Every contract has a safety part (spans, frame, return codes, carry/borrow in {0,1}) that is
+ * proved for symbolic, unbounded `count` with loop contracts (loops/bn_digits.json), and a value
+ * part (VF_DIGITS_VAL) that is proved for count <= BN_MAX_DIGITS by full unwinding.
+ * -DVF_BN_SAFETY_ONLY compiles the value part out (used by the unbounded jobs only: there
+ * VF_DIGITS_VAL, a BN_MAX_DIGITS-term expression, would not describe the whole array).
+ *
+ * Preconditions that are not checked by the functions themselves are the ones every in-tree
+ * call site establishes (listed at each contract).
+ */
+#ifndef VF_CONTRACTS_BN_DIGITS_H
+#define VF_CONTRACTS_BN_DIGITS_H
+#ifndef VF_REPLAY
+
+/* largest digit count a contract speaks about: BN_MAX_DIGITS for value proofs.  In the
+ * unbounded safety proofs the loops are closed by loop contracts for any count; the cap of 4096
+ * digits exists only because cbmc --trace materialises every written heap array in the
+ * counterexample of the reachability canary (2^40 digits exhausts memory). */
+#ifndef VF_BN_MAXCOUNT
+#ifdef VF_BN_SAFETY_ONLY
+#define VF_BN_MAXCOUNT	((size_t)4096)
+#else
+#define VF_BN_MAXCOUNT	BN_MAX_DIGITS
+#endif
+#endif
+
+#ifdef VF_BN_SAFETY_ONLY
+#define VF_VALUE(c)	1
+#else
+#define VF_VALUE(c)	(c)
+#endif
+
+/* value of an optional array inside __CPROVER_old(): history variables are evaluated
+ * unconditionally at function entry, so the NULL case must be guarded inside */
+#define VF_DS_VAL0(a, n)	(((a) != NULL) ? VF_DIGITS_VAL(a, n) : (vf_bnv_t)0)
+#define VF_DS_SZ(n)		((n) * sizeof(bn_digit_t))
+#define VF_DS_RW(a, n)		((n) <= VF_BN_MAXCOUNT && __CPROVER_rw_ok((a), VF_DS_SZ(n)))
+#define VF_DS_R(a, n)		((n) <= VF_BN_MAXCOUNT && __CPROVER_r_ok((a), VF_DS_SZ(n)))
+/* out-parameter digit that is not part of the array a[0..n-1] */
+#define VF_D_OUTSIDE(p, a, n)	(!__CPROVER_same_object((p), (a)) ||			\
+	(const char *)(p) >= (const char *)((a) + (n)) || (const char *)((p) + 1) <= (const char *)(a))
+#define VF_D_OPT_OUT(p, a, n)	((p) == NULL || (VF_D_OK(p) && VF_D_OUTSIDE(p, a, n)))
+/* two digit arrays are the same array or do not overlap */
+#define VF_DS_DISJOINT(a, an, b, bn_)	(!__CPROVER_same_object((a), (b)) ||		\
+	(const char *)((a) + (an)) <= (const char *)(b) || (const char *)((b) + (bn_)) <= (const char *)(a))
+
+static inline size_t
+bn_digits_calc_digits(bn_digit_t *a, size_t count)
+__CPROVER_requires(a == NULL || count == 0 || VF_DS_R(a, count))
+__CPROVER_assigns()
+__CPROVER_ensures(__CPROVER_return_value <= count)
+__CPROVER_ensures((a == NULL || count == 0) ==> __CPROVER_return_value == 0)
+__CPROVER_ensures(__CPROVER_return_value != 0 ==> a[__CPROVER_return_value - 1] != 0)
+__CPROVER_ensures(VF_VALUE((a != NULL && count != 0) ==>
+    VF_DIGITS_VAL(a, __CPROVER_return_value) == VF_DIGITS_VAL(a, count)))
+;
+
+static inline int
+bn_digits_cmp(bn_digit_t *a, bn_digit_t *b, size_t count)
+__CPROVER_requires(a == b || count == 0 || ((a == NULL || VF_DS_R(a, count)) && (b == NULL || VF_DS_R(b, count))))
+__CPROVER_assigns()
+__CPROVER_ensures(__CPROVER_return_value == 0 || __CPROVER_return_value == 1 || __CPROVER_return_value == -1)
+__CPROVER_ensures((a == b || count == 0) ==> __CPROVER_return_value == 0)
+__CPROVER_ensures(VF_VALUE((a != NULL && b != NULL && count != 0) ==> __CPROVER_return_value ==
+    ((VF_DIGITS_VAL(a, count) > VF_DIGITS_VAL(b, count)) ? 1 :
+     ((VF_DIGITS_VAL(a, count) < VF_DIGITS_VAL(b, count)) ? -1 : 0))))
+;
+
+static inline void
+bn_digits_assign_zero(bn_digit_t *a, size_t count)
+__CPROVER_requires(a == NULL || count == 0 || VF_DS_RW(a, count))
+__CPROVER_assigns(a != NULL && count != 0: __CPROVER_object_upto(a, VF_DS_SZ(count)))
+__CPROVER_ensures(VF_VALUE((a != NULL && count != 0) ==> VF_DIGITS_VAL(a, count) == 0))
+;
+
+/* a = (a << bits) mod 2^(W*count).
+ * Domain: bits < W*count.  Established by every call site: bn_l_shift (digits =
+ * MIN(count, digits + 1 + bits/W) with bits < W*bn->count) and bn_digits_mult_digit__int
+ * (bits = ctz(d) < W).  Outside it the memmove length count*size - bits/8 underflows (F2). */
+static inline void
+bn_digits_l_shift(bn_digit_t *a, size_t count, size_t bits)
+__CPROVER_requires(a == NULL || count == 0 || VF_DS_RW(a, count))
+__CPROVER_requires(count == 0 || bits < count * BN_DIGIT_BITS)
+__CPROVER_assigns(a != NULL && count != 0: __CPROVER_object_upto(a, VF_DS_SZ(count)))
+__CPROVER_ensures(VF_VALUE((a != NULL && count != 0) ==> VF_DIGITS_VAL(a, count) ==
+    ((__CPROVER_old(VF_DS_VAL0(a, count)) << bits) & (VF_POW2W(count) - 1))))
+;
+/* a = a >> bits.  Domain: bits < W*count (every call site: bn_r_shift with bits < W*digits);
+ * outside it `count - 1` underflows in the loop bound (F2). */
+static inline void
+bn_digits_r_shift(bn_digit_t *a, size_t count, size_t bits)
+__CPROVER_requires(a == NULL || count == 0 || VF_DS_RW(a, count))
+__CPROVER_requires(count == 0 || bits < count * BN_DIGIT_BITS)
+__CPROVER_assigns(a != NULL && count != 0: __CPROVER_object_upto(a, VF_DS_SZ(count)))
+__CPROVER_ensures(VF_VALUE((a != NULL && count != 0) ==> VF_DIGITS_VAL(a, count) ==
+    (__CPROVER_old(VF_DS_VAL0(a, count)) >> bits)))
+;
+
+/* a += b; carry out of the count digits.  Call sites pass count >= 1. */
+static inline void
+bn_digits_add_digit(bn_digit_t *a, size_t count, bn_digit_t b, bn_digit_t *carry)
+__CPROVER_requires(a != NULL && count >= 1 && VF_DS_RW(a, count))
+__CPROVER_requires(VF_D_OPT_OUT(carry, a, count))
+__CPROVER_assigns(__CPROVER_object_upto(a, VF_DS_SZ(count)))
+__CPROVER_assigns(carry != NULL: *carry)
+__CPROVER_ensures(carry != NULL ==> (*carry == 0 || *carry == 1))
+__CPROVER_ensures(VF_VALUE(carry != NULL ==>
+    VF_DIGITS_VAL(a, count) + (*carry ? VF_POW2W(count) : (vf_bnv_t)0) == __CPROVER_old(VF_DIGITS_VAL(a, count)) + b))
+__CPROVER_ensures(VF_VALUE(VF_DIGITS_VAL(a, count) ==
+    ((__CPROVER_old(VF_DIGITS_VAL(a, count)) + b) & (VF_POW2W(count) - 1))))
+;
+
+/* a += b (b_count digits of b); EOVERFLOW iff b does not fit a; carry out of a_count digits.
+ * a == b (same array) is permitted. */
+static inline int
+bn_digits_add(bn_digit_t *a, size_t a_count, bn_digit_t *b, size_t b_count, bn_digit_t *carry)
+__CPROVER_requires(a == NULL || VF_DS_RW(a, a_count))
+__CPROVER_requires(b == NULL || VF_DS_R(b, b_count))
+__CPROVER_requires(a == NULL || b == NULL || a == b || VF_DS_DISJOINT(a, a_count, b, b_count))
+__CPROVER_requires(carry == NULL || (VF_D_OK(carry) && (a == NULL || VF_D_OUTSIDE(carry, a, a_count)) &&
+    (b == NULL || VF_D_OUTSIDE(carry, b, b_count))))
+__CPROVER_assigns(a != NULL && b != NULL && b_count != 0 && a_count >= b_count: __CPROVER_object_upto(a, VF_DS_SZ(a_count)))
+__CPROVER_assigns(carry != NULL: *carry)
+__CPROVER_ensures(__CPROVER_return_value == ((a == NULL || b == NULL) ? EINVAL :
+    ((b_count != 0 && a_count < b_count) ? EOVERFLOW : 0)))
+__CPROVER_ensures(carry != NULL ==> (*carry == 0 || *carry == 1))
+__CPROVER_ensures((carry != NULL && __CPROVER_return_value != 0) ==> *carry == 0)
+__CPROVER_ensures(VF_VALUE((__CPROVER_return_value == 0 && carry != NULL) ==>
+    VF_DIGITS_VAL(a, a_count) + (*carry ? VF_POW2W(a_count) : (vf_bnv_t)0) ==
+    __CPROVER_old(VF_DS_VAL0(a, a_count)) + __CPROVER_old(VF_DS_VAL0(b, b_count))))
+__CPROVER_ensures(VF_VALUE(__CPROVER_return_value == 0 ==> VF_DIGITS_VAL(a, a_count) ==
+    ((__CPROVER_old(VF_DS_VAL0(a, a_count)) + __CPROVER_old(VF_DS_VAL0(b, b_count))) & (VF_POW2W(a_count) - 1))))
+;
+
+/* a -= b; borrow out of the count digits.  Call sites pass count >= 1. */
+static inline void
+bn_digits_sub_digit(bn_digit_t *a, size_t count, bn_digit_t b, bn_digit_t *borrow)
+__CPROVER_requires(a != NULL && count >= 1 && VF_DS_RW(a, count))
+__CPROVER_requires(VF_D_OPT_OUT(borrow, a, count))
+__CPROVER_assigns(__CPROVER_object_upto(a, VF_DS_SZ(count)))
+__CPROVER_assigns(borrow != NULL: *borrow)
+__CPROVER_ensures(borrow != NULL ==> (*borrow == 0 || *borrow == 1))
+__CPROVER_ensures(VF_VALUE(borrow != NULL ==>
+    VF_DIGITS_VAL(a, count) + b == __CPROVER_old(VF_DIGITS_VAL(a, count)) + (*borrow ? VF_POW2W(count) : (vf_bnv_t)0)))
+__CPROVER_ensures(VF_VALUE(VF_DIGITS_VAL(a, count) ==
+    ((__CPROVER_old(VF_DIGITS_VAL(a, count)) + VF_POW2W(count) - b) & (VF_POW2W(count) - 1))))
+;
+
+/* a -= b, internal: a_count >= b_count (documented: "set to non zero digits count"; call sites:
+ * bn_digits_sub after its own check, bn_div with nn->digits - j >= dd->digits,
+ * bn_digits_sub_digit_mult__int).  *borrow is left untouched when b_count == 0 or a == b. */
+static inline void
+bn_digits_sub__int(bn_digit_t *a, size_t a_count, bn_digit_t *b, size_t b_count, bn_digit_t *borrow)
+__CPROVER_requires(a_count >= b_count)
+__CPROVER_requires(b_count == 0 || (VF_DS_RW(a, a_count) && VF_DS_R(b, b_count)))
+__CPROVER_requires(b_count == 0 || a == b || VF_DS_DISJOINT(a, a_count, b, b_count))
+__CPROVER_requires(borrow == NULL || (VF_D_OK(borrow) && (b_count == 0 ||
+    (VF_D_OUTSIDE(borrow, a, a_count) && VF_D_OUTSIDE(borrow, b, b_count)))))
+__CPROVER_assigns(b_count != 0: __CPROVER_object_upto(a, VF_DS_SZ(a_count)))
+__CPROVER_assigns(borrow != NULL && b_count != 0 && a != b: *borrow)
+__CPROVER_ensures((borrow != NULL && b_count != 0 && a != b) ==> (*borrow == 0 || *borrow == 1))
+__CPROVER_ensures(VF_VALUE((borrow != NULL && b_count != 0 && a != b) ==>
+    VF_DIGITS_VAL(a, a_count) + __CPROVER_old(VF_DIGITS_VAL(b, b_count)) ==
+    __CPROVER_old(VF_DIGITS_VAL(a, a_count)) + (*borrow ? VF_POW2W(a_count) : (vf_bnv_t)0)))
+__CPROVER_ensures(VF_VALUE(b_count != 0 ==> VF_DIGITS_VAL(a, a_count) ==
+    ((__CPROVER_old(VF_DIGITS_VAL(a, a_count)) + VF_POW2W(a_count) - __CPROVER_old(VF_DIGITS_VAL(b, b_count))) &
+     (VF_POW2W(a_count) - 1))))
+;
+
+static inline int
+bn_digits_sub(bn_digit_t *a, size_t a_count, bn_digit_t *b, size_t b_count, bn_digit_t *borrow)
+__CPROVER_requires(a == NULL || VF_DS_RW(a, a_count))
+__CPROVER_requires(b == NULL || VF_DS_R(b, b_count))
+__CPROVER_requires(a == NULL || b == NULL || a == b || VF_DS_DISJOINT(a, a_count, b, b_count))
+__CPROVER_requires(borrow == NULL || (VF_D_OK(borrow) && (a == NULL || VF_D_OUTSIDE(borrow, a, a_count)) &&
+    (b == NULL || VF_D_OUTSIDE(borrow, b, b_count))))
+__CPROVER_assigns(a != NULL && b != NULL && b_count != 0 && a_count >= b_count: __CPROVER_object_upto(a, VF_DS_SZ(a_count)))
+__CPROVER_assigns(borrow != NULL && a != NULL && b != NULL && (b_count == 0 || a_count >= b_count): *borrow)
+__CPROVER_ensures(__CPROVER_return_value == ((a == NULL || b == NULL) ? EINVAL :
+    ((b_count != 0 && a_count < b_count) ? EOVERFLOW : 0)))
+__CPROVER_ensures((borrow != NULL && __CPROVER_return_value == 0) ==> (*borrow == 0 || *borrow == 1))
+__CPROVER_ensures(VF_VALUE((__CPROVER_return_value == 0 && borrow != NULL) ==>
+    VF_DIGITS_VAL(a, a_count) + __CPROVER_old(VF_DS_VAL0(b, b_count)) ==
+    __CPROVER_old(VF_DS_VAL0(a, a_count)) + (*borrow ? VF_POW2W(a_count) : (vf_bnv_t)0)))
+__CPROVER_ensures(VF_VALUE(__CPROVER_return_value == 0 ==> VF_DIGITS_VAL(a, a_count) ==
+    ((__CPROVER_old(VF_DS_VAL0(a, a_count)) + VF_POW2W(a_count) - __CPROVER_old(VF_DS_VAL0(b, b_count))) &
+     (VF_POW2W(a_count) - 1))))
+;
+
+#endif /* !VF_REPLAY */
+#endif
